@@ -23,8 +23,7 @@ parsed single-line expressions the v1 printer behaves identically because every 
 in `binaryExpr` / the UnaryExpr arm is preceded by `nooverride`.
 
 Not modelled: selectors, index, slice, call, postfix (HighestPrec contexts), struct and list
-literals, interpolations, comments, line breaking, the `==` unary operator of the StructCmp
-experiment.  Those are covered by the harness' direct predicates only.
+literals, interpolations, comments, line breaking.  Those are covered by the harness' direct predicates only.
 -/
 namespace CueVerif.Fmt
 
@@ -65,9 +64,10 @@ def prec : OpTok → Nat
   | mul | quo => 7
   | _ => 0
 
-/-- the operators `parseUnaryExpr` accepts (without `==`, which needs the StructCmp experiment) -/
+/-- the operators `parseUnaryExpr` accepts (`==` under the StructCmp experiment, which is on by
+default on this tree: harness op `unop`) -/
 def isUnary : OpTok → Bool
-  | add | sub | not | mul | lss | leq | geq | gtr | neq | mat | nmat => true
+  | add | sub | not | mul | lss | leq | geq | gtr | neq | mat | nmat | eql => true
   | _ => false
 
 /-- `Token.String` for operator tokens -/
